@@ -26,8 +26,9 @@ import Pog.Props.ClientGen
     final method names pairwise distinct                              full   `method_names_distinct` (F17 repaired; one emit
           pass or two: `emit_passes_irrelevant`), former witnesses `method_names_distinct_former_witness`,
           `dedup_suffix_collision_former_witness`
-    exactly one method per tag client                                 ✗      `duplicate_tag_counterexample`,
-          `reachable_exactly_once_partial`
+    exactly one method per tag client                                 full   `one_method_per_tag_client` (F45 repaired: an
+          operation tagged with two spellings of one tag is appended once), former witness `duplicate_tag_former_witness`;
+          with the parser: `reachable_exactly_once_partial`
     method names are valid identifiers                                ✗      `method_names_valid` (partial: ids with an
           ASCII alphanumeric), full for the PATH strategy `path_strategy_method_names_valid`,
           witness `method_names_valid_counterexample`
@@ -244,25 +245,41 @@ theorem dedup_keeps_every_operation (direct : Bool) (ops : List IROp) :
     (finalMethodNames direct ops).length = ops.length :=
   finalMethodNames_length direct ops
 
-/-- ✗ witness: an operation tagged `Pets` and `pets` is defined TWICE in the one client `pets`. -/
-theorem duplicate_tag_counterexample :
-    clients UInfo.ascii true [⟨s "/a", s "GET", s "x", [s "Pets", s "pets"]⟩] = [(s "pets", [s "x", s "x"])] := by
+/-- The former witness of F45: an operation tagged `Pets` and `pets` used to be defined TWICE in the one client `pets`; two
+    spellings next to a different tag, and an operation that shares only the key. -/
+theorem duplicate_tag_former_witness :
+    clients UInfo.ascii true [⟨s "/a", s "GET", s "x", [s "Pets", s "pets"]⟩] = [(s "pets", [s "x"])] ∧
+    clients UInfo.ascii false [⟨s "/a", s "GET", s "x", [s "Data Sources", s "admin", s "data_sources"]⟩,
+                               ⟨s "/a", s "PUT", s "y", [s "data-sources"]⟩]
+      = [(s "datasources", [s "x", s "y"]), (s "admin", [s "x"])] := by
   decide
+
+/-- `exactly one method per tag client` at full strength (F17 and F45 repaired) - EVERY list of IR operations, one emit pass or
+    two: the final method name of an operation (pairwise distinct, `method_names_distinct`) is defined exactly ONCE in the client
+    of every key one of its tags (or `default`) normalises to - however many spellings of the tag it carries - and not at all in
+    any other client. -/
+theorem one_method_per_tag_client (u : UInfo) (direct : Bool) (ops : List IROp)
+    (p : IROp × Str) (hp : p ∈ ops.zip (finalMethodNames direct ops)) (key : Str) :
+    (clientMethods u direct ops key).count p.2 = if key ∈ (opTags p.1).map (normTagKey u) then 1 else 0 :=
+  clientMethods_count_zip u direct ops key p hp
+
+example : ((⟨s "/a", s "GET", s "x", [s "Pets", s "pets"]⟩ : IROp), s "x") ∈
+    [(⟨s "/a", s "GET", s "x", [s "Pets", s "pets"]⟩ : IROp)].zip
+      (finalMethodNames true [⟨s "/a", s "GET", s "x", [s "Pets", s "pets"]⟩]) := by decide
 
 /-- Each normalised tag key names exactly one client (all inputs). -/
 theorem clients_are_keyed_uniquely (u : UInfo) (direct : Bool) (ops : List IROp) :
     ((clients u direct ops).map (·.1)).Nodup :=
   clients_keys_nodup u direct ops
 
-/-- PARTIAL (`reachable_exactly_once`): when no operation raises (F17 repaired: the sanitised ids may collide) then — on the
-    direct and on the diff path alike —
+/-- PARTIAL (`reachable_exactly_once`): when no operation raises (F17, F45 repaired: the sanitised ids may collide and an
+    operation may carry several spellings of one tag) then — on the direct and on the diff path alike —
     * there is one IR operation per recognised (path, method) pair, in document order,
     * there is one final method name per IR operation, the names are pairwise distinct (distinct operations never collapse),
     * operation `i` is named after its own id as the selected strategy derives it (`sanMethod id_i`, or with a numeric suffix),
       and when the sanitised ids are already pairwise distinct the de-duplication changes nothing,
-    * for every operation and every client key, the client defines the operation's method exactly as many
-      times as the operation has tags normalising to that key: once for each of its clients when its tags
-      have pairwise distinct keys, never in a client it does not belong to. -/
+    * for every operation and every client key, the client defines the operation's method exactly ONCE when one of the
+      operation's tags (or `default`) normalises to that key, and not at all otherwise. -/
 theorem reachable_exactly_once_partial (u : UInfo) (st : Naming) (direct : Bool) (paths : Paths)
     (hs : parseSucceeds u st paths = true) :
     let ops := (parseOps u st paths).1
@@ -272,17 +289,18 @@ theorem reachable_exactly_once_partial (u : UInfo) (st : Naming) (direct : Bool)
     (∀ p ∈ ops.zip names, p.2 = sanMethod p.1.opId ∨ ∃ n, p.2 = sanMethod (sufId p.1.opId n)) ∧
     ((ops.map (fun o => sanMethod o.opId)).Nodup → names = ops.map (fun o => sanMethod o.opId)) ∧
     ∀ p ∈ ops.zip names, ∀ key,
-      (clientMethods u direct ops key).count p.2 = ((opTags p.1).map (normTagKey u)).count key := by
+      (clientMethods u direct ops key).count p.2 = if key ∈ (opTags p.1).map (normTagKey u) then 1 else 0 := by
   intro ops names
   exact ⟨(parseOps_keeps_all u st paths hs).1, finalMethodNames_length direct ops, finalMethodNames_nodup direct ops,
     finalMethodNames_shape direct ops, finalMethodNames_of_nodup direct ops,
     fun p hp key => clientMethods_count_zip u direct ops key p hp⟩
 
-/-- The hypothesis is satisfiable by a document whose ids COLLIDE (`foo, foo, foo_2`, the former F17 witness). -/
+/-- The hypothesis is satisfiable by a document whose ids COLLIDE (`foo, foo, foo_2`, the former F17 witness) and whose tags
+    repeat a key (`Pets`, `pets`, the former F45 witness). -/
 example : parseSucceeds UInfo.ascii .operationId
     [(s "/a", [(s "get", { operationId := some (s "foo"), responses := [.strKey (s "200")] }),
                (s "put", { operationId := some (s "foo"), responses := [.strKey (s "200")] }),
-               (s "post", { operationId := some (s "foo_2"), tags := .list [s "x"], responses := [.strKey (s "200")] })])] = true := by
+               (s "post", { operationId := some (s "foo_2"), tags := .list [s "Pets", s "pets"], responses := [.strKey (s "200")] })])] = true := by
   decide
 
 /-- **C07 end to end over three models** (operations parser `Pog.Ops`, de-duplication + grouping of the endpoints emitter,
@@ -292,10 +310,9 @@ example : parseSucceeds UInfo.ascii .operationId
     `default`):
     * `APIClient` has a property named `sanitize_module_name(c)` returning `sanitize_class_name(c) + "Client"`, `c` the canonical
       spelling of `t`'s tag group (same normalised key as `t`), and
-    * the client of that tag group defines `name` exactly as many times as `o` has tags in that group: ONCE when `o`'s tags have
-      pairwise distinct keys.
+    * the client of that tag group defines `name` exactly ONCE.
     What the theorem does not carry: that the class written to `endpoints/<module>.py` is the one the property imports (the import
-    lines of `client.py` are part of the ClientGen skeleton correspondence), and the hypotheses' complements (F44, F45, F64). -/
+    lines of `client.py` are part of the ClientGen skeleton correspondence), and the hypotheses' complements (F44, F64). -/
 theorem reachable_through_apiclient_partial (u : UInfo) (st : Naming) (direct : Bool) (paths : Paths)
     (hs : parseSucceeds u st paths = true)
     (o : IROp) (name : Str) (ho : (o, name) ∈ (parseOps u st paths).1.zip (finalMethodNames direct (parseOps u st paths).1))
@@ -305,28 +322,24 @@ theorem reachable_through_apiclient_partial (u : UInfo) (st : Naming) (direct : 
     let c := ClientGen.canonicalTag u tagss (normTagKey u t)
     (sanModule u c, sanClass c ++ kClientSuffix) ∈ (ClientGen.apiClientSkel (ClientGen.tagTuples u tagss)).props ∧
     normTagKey u c = normTagKey u t ∧
-    (clientMethods u direct ops (normTagKey u t)).count name
-      = ((opTags o).map (normTagKey u)).count (normTagKey u t) ∧
-    (((opTags o).map (normTagKey u)).Nodup →
-      (clientMethods u direct ops (normTagKey u t)).count name = 1) := by
+    (clientMethods u direct ops (normTagKey u t)).count name = 1 := by
   intro ops tagss c
   have hts : o.tags ∈ tagss := List.mem_map.mpr ⟨o, (List.of_mem_zip ho).1, rfl⟩
   have ht' : t ∈ ClientGen.tagsOr o.tags := ht
   obtain ⟨h1, h2, _⟩ := ClientGenProps.every_tag_group_has_a_property u tagss o.tags hts t ht'
   have h3 := (reachable_exactly_once_partial u st direct paths hs).2.2.2.2.2 (o, name) ho (normTagKey u t)
-  refine ⟨h1, h2, h3, fun hnd => ?_⟩
-  rw [h3, hnd.count, if_pos (List.mem_map.mpr ⟨t, ht, rfl⟩)]
+  refine ⟨h1, h2, ?_⟩
+  rw [h3, if_pos (List.mem_map.mpr ⟨t, ht, rfl⟩)]
 
-/-- Corollary in the words of the property: with pairwise distinct tag keys an operation is defined exactly
-    once in each of its clients and not at all in any other. -/
+/-- Corollary in the words of the property: an operation is defined exactly once in each of its clients and not at all in any
+    other. -/
 theorem reachable_exactly_once_per_client (u : UInfo) (st : Naming) (direct : Bool) (paths : Paths)
     (hs : parseSucceeds u st paths = true)
     (o : IROp) (name : Str) (ho : (o, name) ∈ (parseOps u st paths).1.zip (finalMethodNames direct (parseOps u st paths).1))
-    (ht : ((opTags o).map (normTagKey u)).Nodup) (key : Str) :
+    (key : Str) :
     (clientMethods u direct (parseOps u st paths).1 key).count name
-      = if key ∈ (opTags o).map (normTagKey u) then 1 else 0 := by
-  rw [(reachable_exactly_once_partial u st direct paths hs).2.2.2.2.2 (o, name) ho key]
-  exact ht.count
+      = if key ∈ (opTags o).map (normTagKey u) then 1 else 0 :=
+  (reachable_exactly_once_partial u st direct paths hs).2.2.2.2.2 (o, name) ho key
 
 example :
     let paths : Paths := [(s "/pets", [(s "get", { operationId := some (s "listPets"), tags := .list [s "pets"],
